@@ -73,7 +73,11 @@ def run_check(P, tier, seed, replay=None):
         r = gen_consts()
         if not r.ok:
             broken.append(("consts", r.detail, ""))
-        r = coq_make([vo], force=[vo])
+        # first bring every dependency up to date, then rebuild the Props file alone so that the captured output holds
+        # exactly its own Print Assumptions blocks (a dependency that is itself a Props file would add its blocks)
+        r = coq_make([vo])
+        if r.ok:
+            r = coq_make([vo], force=[vo])
         if not r.ok:
             broken.append(("proof", r.detail, r.out[-4000:]))
         else:
@@ -84,7 +88,9 @@ def run_check(P, tier, seed, replay=None):
         # the Print Assumptions blocks can be attributed)
         for extra_props in getattr(P, "COQ_PROPS_EXTRA", []):
             evo = extra_props[:-2] + ".vo"
-            re_ = coq_make([evo], force=[evo])
+            re_ = coq_make([evo])
+            if re_.ok:
+                re_ = coq_make([evo], force=[evo])
             if not re_.ok:
                 broken.append(("proof", re_.detail, re_.out[-4000:]))
                 r = re_
